@@ -35,9 +35,9 @@ Proof. repeat split; reflexivity. Qed.
 (* ---- containment of one assignment of href: for every documented behaviour of the fetcher (nothing, a wrong shape,
    text, bytes, undecodable bytes, bytes or text with an unknown encoding label, OSError/IOError/ValueError) and every
    malformed href the assignment returns; a failed load leaves hrefFound = False and an empty sheet *)
-Theorem sethref_contained : forall ld W cwd base override parent h tr,
+Theorem sethref_contained : forall ld W cwd base anc override parent h tr,
   no_escape ld -> documented_world W ->
-  match set_href ld W cwd base override parent h tr with
+  match set_href ld W cwd base anc override parent h tr with
   | Escapes _ _ => False
   | OutOfDepth => True
   | Normal (l, _) => (l_found l = false -> l_rules l = [])
@@ -45,18 +45,36 @@ Theorem sethref_contained : forall ld W cwd base override parent h tr,
 Proof. exact set_href_contained_lemma. Qed.
 Print Assumptions sethref_contained.
 
-(* ---- the whole parse.  Full statement of the property:
-        forall W documented, exists fuel rules tr, parse_string fuel W cwd base override sr = Normal (rules, tr) /\ ...
-   It is FALSE for the code: nothing bounds the nesting of imports (import_cycle_refuted below; open finding
-   C20-import-cycle-recursion).  Proved: no exception ever leaves the parse, and whenever the nesting stays below the
-   fuel exactly the well-placed @import rules are kept, in order, with the href as written, each unloaded one with an
-   empty sheet. *)
-Theorem parse_contained_partial : forall fuel W cwd base override sr,
+(* ---- the whole parse.  Full statement of the property (parse_contained): for every documented world whose fetcher
+   serves content at finitely many URLs, the parse RETURNS (fuel above the number of those URLs is never exhausted: the
+   import chain never repeats a URL since _setHref refuses a URL that a sheet of the chain already has), no exception
+   leaves it, exactly the well-placed @import rules are kept, in order, with the href as written, and each unloaded one
+   has an empty sheet.  parse_never_raises is the part that needs no finiteness: for every fuel. *)
+Theorem parse_contained : forall W cwd universe base override sr fuel,
+  documented_world W -> served W universe -> length universe < fuel ->
+  exists rules tr,
+    parse_string fuel W cwd base override sr = Normal (rules, tr) /\
+    import_hrefs rules = placed (s_items sr) (initial_expected sr) /\ Forall import_ok rules.
+Proof. exact parse_terminates_lemma. Qed.
+Print Assumptions parse_contained.
+
+Theorem parse_terminates : forall W cwd universe base override sr,
+  documented_world W -> served W universe ->
+  exists fuel rules tr, parse_string fuel W cwd base override sr = Normal (rules, tr).
+Proof.
+  intros W cwd universe base override sr HW Hs.
+  destruct (parse_terminates_lemma W cwd universe base override sr (S (length universe)) HW Hs (Nat.lt_succ_diag_r _))
+    as [rules [tr [H _]]].
+  exists (S (length universe)), rules, tr. exact H.
+Qed.
+Print Assumptions parse_terminates.
+
+Theorem parse_never_raises : forall fuel W cwd base override sr,
   documented_world W ->
   good (parse_string fuel W cwd base override sr)
        (fun rules => import_hrefs rules = placed (s_items sr) (initial_expected sr) /\ Forall import_ok rules).
 Proof. exact parse_contained_lemma. Qed.
-Print Assumptions parse_contained_partial.
+Print Assumptions parse_never_raises.
 
 (* a world for the examples: a.css is text importing sub/b.css, which is missing *)
 Definition u_top : url := mk_url {| u_scheme := s "http"; u_netloc := s "h"; u_path := s "/d/top.css"; u_query := [] |}.
@@ -92,58 +110,77 @@ Proof.
   - vm_compute. reflexivity.
 Qed.
 
-(* ---- the refutation: a sheet that imports itself exhausts every nesting bound (the implementation: RecursionError) *)
-Definition u_self : url := mk_url {| u_scheme := s "http"; u_netloc := s "h"; u_path := s "/a.css"; u_query := [] |}.
-Definition src_self : src := {| s_charset := None; s_items := [IImport (rel (s "a.css")) (s "all")] |}.
+Example parse_contained_applies : served W_ex [s "http://h/d/a.css"].
+Proof.
+  intros tr u http c. simpl.
+  match goal with |- (if ?b then _ else _) = _ -> _ => destruct b eqn:E end.
+  - intros _. left. symmetry. apply eqs_spec. exact E.
+  - match goal with |- (if ?b then _ else _) = _ -> _ => destruct b end; intros H; discriminate H.
+Qed.
+
+(* ---- import cycles (were: RecursionError, import_cycle_refuted): every URL serves a sheet that imports a.css and
+   b.css; the chain top -> a -> b stops where a URL of the chain comes again, without asking the fetcher *)
+Definition src_ab : src :=
+  {| s_charset := None; s_items := [IImport (rel (s "a.css")) (s "all"); IImport (rel (s "b.css")) (s "all")] |}.
 Definition W_cycle : world :=
   {| fetch := fun _ _ => OContent None (CText 0);
      detect := fun _ => (Some (s "utf-8"), false);
      decode := fun _ _ => DecRaise E_LookupError;
-     parse := fun _ => src_self;
+     parse := fun _ => src_ab;
      enc_norm := fun _ => None |}.
 
-Lemma cycle_join : urljoin u_self (rel (s "a.css")) = Some u_self.
-Proof. vm_compute. reflexivity. Qed.
+Example import_cycle_stops :
+  exists rules,
+    parse_string 4 W_cycle u_top (Some u_top) None src_ab =
+    Normal (rules, rev [s "http://h/d/a.css"; s "http://h/d/b.css"; s "http://h/d/b.css"; s "http://h/d/a.css"])
+    /\ import_hrefs rules = [s "a.css"; s "b.css"].
+Proof. eexists. split; vm_compute; reflexivity. Qed.
 
-Lemma cycle_src : forall fuel tr, parse_src fuel W_cycle u_self (Some u_self) None None src_self tr = OutOfDepth.
-Proof.
-  induction fuel as [ | f IH]; intros tr; [reflexivity|].
-  change (parse_src (S f) W_cycle u_self (Some u_self) None None src_self tr)
-    with (items_loop (fun full o n sr' tr' => parse_src f W_cycle u_self (Some full) o n sr' tr')
-                     W_cycle u_self (Some u_self) None None [IImport (rel (s "a.css")) (s "all")] 0%N [] tr).
-  unfold items_loop, set_href.
-  change (negb (nonempty (raw (rel (s "a.css"))))) with false. cbv iota.
-  rewrite cycle_join.
-  change (readurl W_cycle None (parent_encoding None []) (fetch W_cycle tr (raw u_self)))
-    with (RdOk (Some (s "utf-8")) 5%N 0%N).
-  cbv beta iota zeta.
-  change (split_enc 5 (Some (s "utf-8"))) with (@None str, @None str).
-  cbv beta iota zeta.
-  change (opt_truthy None) with (@None str).
-  change (parse W_cycle 0%N) with src_self.
-  rewrite IH. reflexivity.
-Qed.
+(* ---- the fetcher is the only source of content: the whole outcome of a parse (rule tree at every depth, calls made,
+   escaping exception) is determined by the answers the fetcher gave at the recorded calls.  Two worlds with the same
+   codec / statement parser / encoding validation whose fetchers agree at every call of the trace (URL + the calls made
+   before it) give the same result, whatever else the second fetcher would have served *)
+Theorem only_fetcher_called : forall W W' fuel cwd base override sr tR,
+  same_env W W' ->
+  rtrace (parse_string fuel W cwd base override sr) = Some tR -> agree W W' tR ->
+  parse_string fuel W' cwd base override sr = parse_string fuel W cwd base override sr.
+Proof. exact only_fetcher_called_lemma. Qed.
+Print Assumptions only_fetcher_called.
 
-Theorem import_cycle_refuted :
-  exists W cwd base sr, documented_world W /\
-    forall fuel, parse_string fuel W cwd (Some base) None sr = OutOfDepth.
+(* calls are only ever added to the trace, in order *)
+Theorem trace_only_grows : forall W cwd fuel full anc o n sr tr t,
+  rtrace (parse_src fuel W cwd (Some full) anc o n sr tr) = Some t -> suffix tr t.
+Proof. intros W cwd fuel full anc o n sr tr t. apply (parse_src_extends W cwd fuel full anc o n sr tr t). Qed.
+Print Assumptions trace_only_grows.
+
+(* W_ex2 answers differently at a URL that is never asked for *)
+Definition W_ex2 : world :=
+  {| fetch := fun tr u => if eqs u (s "http://elsewhere/x.css") then OContent None (CText 7) else fetch W_ex tr u;
+     detect := detect W_ex; decode := decode W_ex; parse := parse W_ex; enc_norm := enc_norm W_ex |}.
+
+Lemma suffix_in u tr0 tr : suffix (u :: tr0) tr -> In u tr.
+Proof. intros [p ->]. apply in_or_app. right. left. reflexivity. Qed.
+
+Example only_fetcher_called_nonvacuous :
+  exists tR, rtrace (parse_string 3 W_ex u_top (Some u_top) None top_ex) = Some tR /\
+             same_env W_ex W_ex2 /\ agree W_ex W_ex2 tR /\
+             fetch W_ex2 [] (s "http://elsewhere/x.css") <> fetch W_ex [] (s "http://elsewhere/x.css").
 Proof.
-  exists W_cycle, u_self, u_self, src_self. split.
-  - split; [intros tr u e H; inversion H | intros b en e H; inversion H; right; reflexivity].
-  - intros fuel. unfold parse_string. change (opt_truthy None) with (@None str). rewrite cycle_src. reflexivity.
+  eexists. split; [vm_compute; reflexivity|]. split; [repeat split|]. split; [ | vm_compute; discriminate].
+  intros tr0 u Hs. apply suffix_in in Hs. simpl in Hs.
+  repeat (destruct Hs as [<- | Hs]; [vm_compute; reflexivity|]). destruct Hs.
 Qed.
-Print Assumptions import_cycle_refuted.
 
 (* ---- nested imports are resolved against the URL of the imported sheet: a loaded import's sheet carries the
    joined URL as href, was read from the fetcher at exactly that URL, and is parsed with that URL as base *)
-Theorem nested_base_url : forall f W cwd b override parent h tr l tr',
-  set_href (loader_at f W cwd) W cwd (Some b) override parent h tr = Normal (l, tr') ->
+Theorem nested_base_url : forall f W cwd b anc override parent h tr l tr',
+  set_href (loader_at f W cwd) W cwd (Some b) anc override parent h tr = Normal (l, tr') ->
   l_found l = true ->
   exists full used enctype t rules,
     urljoin b h = Some full /\ l_href l = Some (raw full) /\
     readurl W override parent (fetch W tr (raw full)) = RdOk used enctype t /\
-    parse_src f W cwd (Some full) (opt_truthy (fst (split_enc enctype used))) (opt_truthy (snd (split_enc enctype used)))
-              (parse W t) (raw full :: tr) = Normal (rules, tr').
+    parse_src f W cwd (Some full) (raw full :: anc) (opt_truthy (fst (split_enc enctype used)))
+              (opt_truthy (snd (split_enc enctype used))) (parse W t) (raw full :: tr) = Normal (rules, tr').
 Proof. exact nested_base_url_lemma. Qed.
 Print Assumptions nested_base_url.
 
